@@ -32,6 +32,7 @@ CONSTANTS
  Diags <- MCDiags
  Syms <- MCSyms
  Trigs <- MCTrigs
+ Scales <- MCScales
 CHECK_DEADLOCK FALSE
 CONSTRAINT StopAfterCells
 INVARIANT HypReps
@@ -59,7 +60,7 @@ def skey(s):
 def session_tla(s, extra=None):
     d = dict(entry=s["entry"], S=[[int(x) for x in r] for r in s["S"]],
              ptrans=frozenset(tuple(int(x) for x in t) for t in s["ptrans"]), box=int(s.get("box", 3)),
-             model=s["model"], chk=bool(s.get("chk", False)), mag=s.get("mag", "none"))
+             model=s["model"], chk=bool(s.get("chk", False)), mag=s.get("mag", "none"), hom=bool(s.get("hom", False)))
     if extra:
         d.update(extra)
     return to_tla(d)
@@ -93,10 +94,10 @@ def reference(sessions, ctx=None, workers=None, timeout=1500):
         for s, _, _ in todo:          # the brute-force comparison of the space group once per entry
             s["chk"] = s["entry"] not in seen_entries
             seen_entries.add(s["entry"])
-        mc = ("---- MODULE MC_FDRef ----\nEXTENDS FiniteDifference\nMCSessions == {%s}\nMCPMs == {}\nMCDiags == {}\nMCSyms == {}\nMCTrigs == {}\n"
+        mc = ("---- MODULE MC_FDRef ----\nEXTENDS FiniteDifference\nMCSessions == {%s}\nMCPMs == {}\nMCDiags == {}\nMCSyms == {}\nMCTrigs == {}\nMCScales == {}\n"
               "StopAfterCells == pc \\in {\"start\", \"bonds\", \"series\", \"atoms\", \"keys\", \"cells\"}\n"
               "ASSUME \\A n \\in %s : PrintT(<<\"CRYSTAL\", n, EntryOf(n).G, EntryOf(n).D, EntryOf(n).atoms>>)\n====\n"
-              % (", ".join(session_tla(dict(s, ptrans=[[0, 0, 0]], mag="none")) for s, _, _ in todo), to_tla(set(names))))
+              % (", ".join(session_tla(dict(s, ptrans=[[0, 0, 0]], mag="none", hom=False)) for s, _, _ in todo), to_tla(set(names))))
         res = tlcmod.run("MC_FDRef", cfg_text=CFG_REF, extra_files={"MC_FDRef.tla": mc}, dump=True, keep=True,
                          workers=workers or min(8, max(2, len(todo))), timeout=timeout)
         try:
